@@ -524,10 +524,21 @@ func (pf Producer[T]) GenerateParallel(
 		var zero T
 		pipe.Processor().
 			ReadAll(func(ctx context.Context) (T, error) {
+				if err := ctx.Err(); err != nil {
+					// the group has been stopped: do not ask
+					// the generator for anything more.
+					return zero, err
+				}
+
 				value, err := pf(ctx)
 				if err != nil {
 					if opts.CanContinueOnError(err) {
 						return zero, ErrIteratorSkip
+					}
+					if !errors.Is(err, io.EOF) {
+						// a failure (rather than the end of the
+						// input) stops the other workers too.
+						cancel()
 					}
 
 					return zero, io.EOF
